@@ -89,7 +89,10 @@ def datasets(rng, shape, nds, fail, nan=False, plain_dims=False,
     return ref, dsets, masks
 
 
-def inner_results(rng, num, all_ok=False, labels=True):
+MARKUP_NAMES = ['n<%d>', 'a`b%d', 'back\\slash%d', 'x>y%d', '*star%d*']
+
+
+def inner_results(rng, num, all_ok=False, labels=True, exotic=False):
     from valjean.gavroche.test import TestEqual
     out = []
     for i in range(num):
@@ -101,12 +104,15 @@ def inner_results(rng, num, all_ok=False, labels=True):
             for lab, vals in (('x', 'ab'), ('y', 'cd'), ('z', 'ef')):
                 if rng.random() < 0.85:
                     labs[lab] = rng.choice(vals)
-        out.append(TestEqual(ref, *dss, name=f'inner{i}',
-                             labels=labs).evaluate())
+        name = f'inner{i}'
+        if exotic and rng.random() < 0.2:
+            # names holding characters that mean something in rst
+            name = rng.choice(MARKUP_NAMES) % i
+        out.append(TestEqual(ref, *dss, name=name, labels=labs).evaluate())
     return out
 
 
-def task_results(rng, style):
+def task_results(rng, style, exotic=False):
     '''[(task name, {'status': ..., 'result': [...]})] for the statistics
     tests.  `style`: 'all_ok' | 'mixed' | 'none_ok'.'''
     from valjean.cosette.task import TaskStatus
@@ -123,14 +129,18 @@ def task_results(rng, style):
         entry = {'status': status}
         if rng.random() < 0.8:
             entry['result'] = inner_results(rng, rng.randint(0, 3),
-                                            all_ok=(style == 'all_ok'))
+                                            all_ok=(style == 'all_ok'),
+                                            exotic=exotic)
             if style == 'none_ok':
                 from valjean.gavroche.test import TestEqual
                 ref, dss, _ = datasets(rng, (2,), 1, 'all')
                 entry['result'] = [TestEqual(
                     ref, *dss, name=f'ko{i}', labels={'x': 'a', 'y': 'c',
                                                       'z': 'e'}).evaluate()]
-        out.append((f'task{i}', entry))
+        tname = f'task{i}'
+        if exotic and rng.random() < 0.2:
+            tname = rng.choice(MARKUP_NAMES) % i
+        out.append((tname, entry))
     return out
 
 
@@ -242,7 +252,7 @@ def gen_result(rng, kind=None, shape=None, plot_safe=False, exotic=False):
         res = TestMetadata(dmd, name='md').evaluate()
     else:
         style = rng.choice(['all_ok', 'mixed', 'mixed', 'none_ok'])
-        trs = task_results(rng, style)
+        trs = task_results(rng, style, exotic)
         out['style'] = style
         if kind == 'stats_tasks':
             res = vst.TestStatsTasks(name='tk', task_results=trs).evaluate()
